@@ -52,7 +52,7 @@ def setup() -> None:
     import sim
     import jinja2.utils as U
 
-    T.install(sim.use_repo(), instr_classes=[U.LRUCache])
+    T.install(sim.use_repo(), instr_classes=[U.LRUCache, __import__("functools").cached_property])
     U.Lock = T.SimLock
     T.neutralise_real_locks()
     T.install_threading_factories()
